@@ -38,7 +38,7 @@ CONFIG = dict(
 )
 
 ENTRY_POINTS = ["parse", "stacked", "decompile", "unparse", "trace", "check_safety", "is_likely_safe",
-                "summaries", "cli_decompile", "cli_trace", "cli_check_safety", "repeat", "nonseekable", "cli_stdin", "ml_env_active"]
+                "summaries", "cli_decompile", "cli_trace", "cli_check_safety", "repeat", "nonseekable", "cli_stdin", "ml_env_active", "cli_tty"]
 
 CRASH_INPUTS = [
     # test/test_crashes.py
@@ -191,6 +191,10 @@ def inputs(ctx):
     for blob in (inner, code, b"import vp_canary_0\n"):
         yield "data-blob", pickle.dumps(blob, 2), True
         yield "data-blob-list", pickle.dumps([blob, blob.decode("latin-1")], 4), True
+    # decompilations longer than a terminal screen (what a pager would be offered)
+    yield "long-decompile-sink", b"".join(b"cvp_sink\nhit\n(K" + bytes([i]) + b"tR0" for i in range(60)) + b"N.", True
+    yield "long-decompile-marker", b"".join(b"cos\nsystem\n(S'echo vp_marker_4'\ntR0" for i in range(45)) + b"N.", True
+    yield "long-decompile-benign", b"".join(b"ccollections\nOrderedDict\n)R0" for i in range(50)) + b"N.", True
     nval = {"quick": 40, "thorough": 600}[tier]
     for v in workload.values(ctx.seed, nval):
         for label, data in gen.natural_pickles(v):
@@ -280,6 +284,47 @@ def make_runner(mods, ctx, data, ep, paths):
             finally:
                 sys.stdin = old
         return go_cli
+    if ep == "cli_tty":
+        # the command line used interactively: standard input and output are a terminal (a pseudo-terminal pair whose
+        # other end is drained by a thread), TERM names a capable one; decompile and trace of the file
+        import sys
+        import threading
+        master, slave = os.openpty()
+
+        def drain():
+            try:
+                while os.read(master, 65536):
+                    pass
+            except OSError:
+                pass
+        threading.Thread(target=drain, daemon=True, name="vp-pty-drain").start()
+        out = os.fdopen(os.dup(slave), "w", encoding="utf-8", errors="replace")
+        inn = os.fdopen(os.dup(slave), "r", encoding="utf-8", errors="replace")
+
+        def go_tty():
+            old = (sys.stdout, sys.stdin)
+            sys.stdout, sys.stdin = out, inn
+            errs = []
+            try:
+                for argv in (["fickling", inp], ["fickling", "--trace", inp]):
+                    try:
+                        with contextlib.redirect_stderr(io.StringIO()):
+                            errs.append(cli.main(argv))
+                    except RecursionError:
+                        errs.append("RecursionError")
+                    except Exception as e:
+                        errs.append(type(e).__name__)
+                return errs
+            finally:
+                sys.stdout, sys.stdin = old[0], old[1]
+                for fh in (out, inn):
+                    try:
+                        fh.close()
+                    except OSError:
+                        pass
+                os.close(slave)
+                os.close(master)
+        return go_tty
     if ep == "ml_env_active":
         # the same inspections while the safe ML environment is armed, its additions naming what the input names
         import fickling.hook as hook
@@ -387,6 +432,7 @@ def register_extensions():
 
 def setup(ctx):
     register_extensions()
+    os.environ["TERM"] = "xterm"        # for the cli_tty entry point: a capable terminal, as in interactive use
     import fickling
     import fickling.fickle as f
     import fickling.analysis as analysis
@@ -441,7 +487,7 @@ def run_shard(ctx):
             variants.append((label + "~" + cname, cd))
         for vi, (vl, vd) in enumerate(variants):
             for ep in eps:
-                if big and ep in ("trace", "cli_trace", "repeat", "unparse", "stacked") and len(vd) < (1 << 20):
+                if big and ep in ("trace", "cli_trace", "repeat", "unparse", "stacked", "cli_tty") and len(vd) < (1 << 20):
                     continue
                 if len(vd) >= (1 << 20) and ep not in ("parse", "nonseekable", "cli_stdin", "check_safety", "is_likely_safe", "cli_decompile"):
                     continue        # tracing copies the memo per opcode (quadratic); the others repeat what decompile / check do
